@@ -70,3 +70,19 @@ package filtering
 //@   ensures replaced-only-after-successful-parse: ok ==> parseOK
 
 //@ sweep C14 os.WriteFile, os.Create, os.OpenFile, os.Truncate, github.com/google/renameio/v2/maybe.WriteFile, github.com/google/renameio/v2.WriteFile
+
+// Copy-back after a refresh: for the list entry that matches a refreshed list (same ID and URL) and was really updated,
+// name, rule count and checksum are all taken over together (a stale checksum would make the next refresh re-download
+// or skip wrongly).  Stated as the invariant of the inner loop over the configured lists.
+//@ func (d *DNSFilter) refreshFiltersArray(filters *[]FilterYAML, force bool) (r0 int, r1 []FilterYAML, r2 []bool, r3 bool)
+//@   property C15
+//@   requires !held(d.conf.filtersMu) && !rheld(d.conf.filtersMu)
+//@   modifies *
+//@   loop 1 invariant 0 <= #i && len(updateFlags) == #i && #i <= len(updateFilters)
+//@   loop 2 invariant 0 <= #i && len(updateFlags) == len(updateFilters)
+//@   loop 3 invariant forall j int :: 0 <= j && j < #i && j < len(*filters) ==> ((*filters)[j].ID == uf.ID && (*filters)[j].URL == uf.URL && updated ==> (*filters)[j].checksum == uf.checksum && (*filters)[j].RulesCount == uf.RulesCount && (*filters)[j].Name == uf.Name)
+
+// Frame assumption for the copy-back proof: refreshing one list writes that list's entry (and files), nothing of d.
+//@ func (d *DNSFilter) update(flt *FilterYAML) (ok bool, err error)
+//@   trusted
+//@   modifies *flt, parseOK, fpos
